@@ -173,6 +173,10 @@ pub async fn build_tree(spec: TreeSpec) -> BuiltTree {
         cur_spec.nodes.push(ns.clone());
         let idx = cur_spec.nodes.len() - 1;
         match build_node(&cur_spec, &built, idx).await {
+            Some((delivered, _)) if built.blocks.iter().any(|b| b.hash == delivered.hash) => {
+                // identical to an existing block (same parent, time and content)
+                remap.push(None);
+            }
             Some((delivered, valid)) => {
                 let has_tx = valid
                     .transactions
@@ -771,6 +775,7 @@ pub async fn run_property(profile: &Profile, args: &Args) {
     let mut coq_cases: Vec<String> = vec![];
     let mut distinct: BTreeSet<String> = BTreeSet::new();
     let mut case_no = 0usize;
+    let mut model_cases = 0usize;
     for ti in 0..n_trees {
         let gp = *rng.pick(&[3u64, 5, 8, 20]);
         let max_nodes = if thorough { 14 } else { 11 };
@@ -793,7 +798,6 @@ pub async fn run_property(profile: &Profile, args: &Args) {
                 if only.parse::<usize>().ok() != Some(case_no) {
                     case_no += 1;
                     summary.case_descs.push("{}".to_string());
-                    coq_cases.push("((0, false), [], [], [])".to_string());
                     continue;
                 }
                 eprintln!("replaying case {}: {}", case_no, spec_json(&t, &order));
@@ -870,7 +874,11 @@ pub async fn run_property(profile: &Profile, args: &Args) {
             if nontrivial && distinct.insert(input.clone()) {
                 summary.nontrivial += 1;
             }
-            coq_cases.push(format!("({}, {})", input, gal::nlllist(&out.rows)));
+            // the Coq chain model covers the regime without purging (ids <= 2 * gp)
+            if out.first_orphan.is_none() && order.iter().all(|i| t.blocks[*i].id <= 2 * t.spec.gp) {
+                coq_cases.push(format!("({}, {})", input, gal::nlllist(&out.rows)));
+                model_cases += 1;
+            }
             if summary.samples.len() < 3 && ti % 7 == 0 && oi == 1 {
                 summary.samples.push(desc.clone());
             }
@@ -889,6 +897,10 @@ pub async fn run_property(profile: &Profile, args: &Args) {
         }
     });
     summary.evaluations = case_no as u64;
+    summary.notes.push(format!(
+        "{} of {} histories lie in the regime covered by the Coq chain model (all ids <= 2*genesis_period, no block delivered before its parent) and were compared with it; the direct oracle ran on all",
+        model_cases, case_no
+    ));
     let header = "From Saito Require Import Base Chain.\n\
         Definition check (c : ((N * bool) * list blk * list N) * list (list (list N))) : bool :=\n\
         let '((cfg, blocks, order), expected) := c in eqb_lllN (run_trace cfg blocks order) expected.";
